@@ -33,6 +33,51 @@ pub fn sparse_of(d: &D, order: usize) -> Sparse<f64> {
             }
         }
     }
+    // order 6: some structurally zero positions are stored explicitly as 0.0 / -0.0 (an assembled stencil with vanishing couplings)
+    if order == 6 {
+        for i in 0..n {
+            for j in 0..d[i].len() {
+                if d[i][j] == 0.0 && (i + 2 * j) % 3 == 0 {
+                    t.push((i, j, if (i + j) % 2 == 0 { 0.0 } else { -0.0 }));
+                }
+            }
+        }
+        t.sort_by_key(|e| (e.0, e.1)); // row-major list: from_triplets has to reorder it
+        return Sparse::from_triplets(n, n, &mut t);
+    }
+    // orders 3..5 reach the same matrix through editing operations instead of a single from_triplets call
+    if order >= 3 && order <= 5 {
+        let mut none: Vec<(usize, usize, f64)> = vec![];
+        match order {
+            3 => {
+                // inserted entry by entry, last first
+                let mut s = Sparse::from_triplets(n, n, &mut none);
+                for &(i, j, v) in t.iter().rev() {
+                    s.insert(i, j, v);
+                }
+                return s;
+            }
+            4 => {
+                // transposed twice
+                let s = Sparse::from_triplets(n, n, &mut t);
+                return s.transpose().transpose();
+            }
+            _ => {
+                // built at half scale with one wrong entry, then overwritten and scaled by 2 (power of two: exact)
+                let mut h: Vec<(usize, usize, f64)> = t.iter().map(|&(i, j, v)| (i, j, v * 0.5)).collect();
+                let first = h.first().cloned();
+                if let Some((i, j, _)) = first {
+                    h[0] = (i, j, 123.0);
+                }
+                let mut s = Sparse::from_triplets(n, n, &mut h);
+                if let Some((i, j, v)) = first {
+                    s.insert(i, j, v);
+                }
+                s.scale(&2.0);
+                return s;
+            }
+        }
+    }
     match order {
         1 => t.reverse(),
         2 => {
